@@ -428,6 +428,63 @@ def pure_decompose(ctx, rule="C02.pure-decompose", methods=("_decompose", "decom
     ctx.floor(rule, 15 if methods is not None else 60)
 
 
+def zero_is_identity(ctx, rule="C02.first-param"):
+    ctx.explain(f"{rule}: (generic zero test) 'first parameter 0 means identity' is a convention of SOME gate families only "
+                "(MZgate(0, phi), sMZgate(0, phi), Ggate are not identities - see the known findings): outside the Gate class no "
+                "code tests `<operation>.p[0]` against 0 for an operation whose class it has not pinned down (class-name comparison "
+                "or isinstance of a concrete family on the path / in the same condition).")
+    GENERIC = {"Gate", "Operation", "Channel", "Decomposition", "Preparation", "Measurement"}
+    from .common_guard import path_facts
+    n = 0
+    for f in ctx.tree.all_functions():
+        if f.module.rel.startswith("backends/tfbackend") or (f.module.rel == "ops.py" and f.cls is not None and f.cls.name == "Gate"):
+            continue
+        hits = []
+        for x in walk_no_nested(f.node):
+            if isinstance(x, ast.Subscript) and isinstance(x.slice, ast.Constant) and x.slice.value == 0 and \
+                    isinstance(x.value, ast.Attribute) and x.value.attr == "p" and not dotted(x.value) == "self.p":
+                # climbs to a comparison with 0 / an allclose(.., 0)
+                p, zero = getattr(x, "parent", None), False
+                while p is not None and not isinstance(p, ast.stmt):
+                    if isinstance(p, ast.Compare) and any(isinstance(c, ast.Constant) and c.value == 0 and not isinstance(c.value, bool)
+                                                          for c in [p.left] + p.comparators):
+                        zero = True
+                    if isinstance(p, ast.Call) and (dotted(p.func) or "").split(".")[-1] in ("allclose", "isclose") and \
+                            any(isinstance(c, ast.Constant) and c.value == 0 for c in p.args[1:2]):
+                        zero = True
+                    p = getattr(p, "parent", None)
+                if zero:
+                    hits.append(x)
+        if not hits:
+            continue
+        cfg = cfg_of(f.node)
+        for x in hits:
+            n += 1
+            ids = cfg.node_of_expr(x)
+            atoms = [a for a, v in path_facts(cfg, ids[0])] if ids else []
+            # the condition the test itself sits in
+            p = getattr(x, "parent", None)
+            while p is not None and not isinstance(p, ast.stmt):
+                if isinstance(p, ast.BoolOp):
+                    atoms += list(p.values)
+                p = getattr(p, "parent", None)
+            # helper functions that return the test: the callers' conditions are not looked at (conservative)
+            specific = False
+            for a in atoms:
+                for y in ast.walk(a):
+                    if isinstance(y, ast.Compare) and any(isinstance(z, ast.Attribute) and z.attr == "__name__" for z in ast.walk(y)) and \
+                            any(isinstance(z, ast.Constant) and isinstance(z.value, str) for z in ast.walk(y)):
+                        specific = True
+                    if isinstance(y, ast.Call) and dotted(y.func) == "isinstance" and len(y.args) == 2:
+                        cls_names = {(dotted(z) or "").split(".")[-1] for z in ([y.args[1]] if not isinstance(y.args[1], ast.Tuple) else y.args[1].elts)}
+                        if cls_names and not cls_names & GENERIC:
+                            specific = True
+            ctx.ob(rule, f.site, specific, "" if specific else f"`{ast.unparse(x)[:30]}` is tested against 0 for an operation of unknown "
+                   "class: gates whose first parameter 0 is not the identity (MZgate, sMZgate, Ggate) are treated as identities",
+                   role="generic-zero-test", line=x.lineno)
+    return n
+
+
 def product_units(ctx, rule="C02.product-units"):
     Hb.ops_frontend(ctx, rule, only_classes=("Xgate", "Zgate", "Gaussian", "Vgate"))
     ctx.floor(rule, 4)
@@ -440,5 +497,6 @@ def rules(ctx):
     mesh_table(ctx)
     driver(ctx)
     elision(ctx)
+    zero_is_identity(ctx)
     pure_decompose(ctx)
     product_units(ctx)
